@@ -296,11 +296,18 @@ func propC12(c *Ctx) {
 					writeIdx = i
 					continue
 				}
-				// a routed message handler: Router().Handler(msg)
-				if fun.Op == "call" && strings.HasSuffix(fun.Name, "MsgServiceRouter).Handler") {
+				// an inner message execution: Router().Handler(msg)(cacheCtx, msg) - or any other
+				// function value invoked with (context, message), e.g. a handler taken from a
+				// per-type cache: whatever the indirection, the message that is EXECUTED must
+				// carry the signer facts
+				isRouted := fun.Op == "call" && strings.HasSuffix(fun.Name, "MsgServiceRouter).Handler")
+				if isRouted || len(ev.Call.Args) == 2 {
 					nHandlerCalls++
 					o.Sites++
-					msg := fun.Args[len(fun.Args)-1]
+					msg := ev.Call.Args[1]
+					if isRouted {
+						msg = fun.Args[len(fun.Args)-1]
+					}
 					if writeIdx >= 0 {
 						o2.Fail(c.evPos(ev), "inner handler invoked after the cache was written", c.Dump(p, i))
 					}
@@ -439,10 +446,11 @@ func propC12(c *Ctx) {
 		seen := map[string]bool{}
 		for _, s := range eff.Where(func(s *Site) bool { return s.Kind == SColl && s.Field == "BridgeInfo" && s.IsCollWrite() && strings.HasPrefix(s.Owner, "opchild/") }) {
 			o2.Sites++
-			r := fnShort(s.Root())
-			seen[r] = true
-			if !allowedW[r] {
-				o2.Fail(c.W.Pos(s.Pos), "BridgeInfo."+s.Method+" in "+r+" (not an allowed writer)", nil)
+			for _, r := range eff.OwnerNames(s) {
+				seen[r] = true
+				if !allowedW[r] {
+					o2.Fail(c.W.Pos(s.Pos), "BridgeInfo."+s.Method+" in "+r+attributedNote(s, r)+" (not an allowed writer)", nil)
+				}
 			}
 		}
 		for w := range allowedW {
